@@ -6,7 +6,7 @@ schedule-dependent order.  It never monkey-patches PyRTL.
   python c20_worker.py <job.json> <out.json>
 
 job = {'noise': int, 'textdir': path, 'designs': [spec, ...], 'mode': 'export'|'passes'|'readonly'}
-spec = {'key': str, 'seed': str, 'cls': 'plain'|'sani'|'zeros'|'both'|'memtie', ...}
+spec = {'key': str, 'seed': str, 'cls': 'plain'|'sani'|'zeros'|'both'|'memtie'|'samename'|'romonly', ...}
 
 Design generation is a pure function of spec['seed'] (random.Random seeded with a
 str is independent of the hash seed; gen_designs iterates lists only).  The
@@ -115,10 +115,16 @@ def build(spec, noise):
     rng = random.Random(spec['seed'])
     cls = spec['cls']
     d = gen_designs.make_design(rng, wide_prob=0.05, n_ops=rng.randint(4, spec.get('max_ops', 18)),
-                                allow_rom=(cls != 'memtie'), ops_subset=OPS_NO_NAND)
+                                allow_rom=(cls not in ('memtie', 'romonly')), allow_mem=(cls != 'romonly'),
+                                ops_subset=OPS_NO_NAND)
     block = d.block
+    sweep = []
     if cls == 'memtie':
         _add_shared_enable_ports(d, rng)
+    if cls == 'samename':
+        _add_same_name_memories(d, rng)
+    if cls == 'romonly':
+        sweep = _add_swept_roms(d, rng)
     # renaming through the public `name` property
     named = list(d.inputs) + list(d.outputs) + list(d.regs)
     inner = sorted([w for w in block.wirevector_set
@@ -157,7 +163,12 @@ def build(spec, noise):
             w.name = nm
     block.sanity_check()
     ncycles = rng.randint(2, 6)
+    if sweep:
+        ncycles = max(1 << w.bitwidth for w in sweep) + 1
     regmap, memmap, inputs = gen_designs.make_stimulus(rng, d, ncycles)
+    for w in sweep:      # every ROM address is read, the last one included
+        for t, step in enumerate(inputs):
+            step[w.name] = ((1 << w.bitwidth) - 1 - t) % (1 << w.bitwidth)
     opts = {'track_all': rng.random() < 0.5,
             'add_reset': rng.choice([True, True, False, 'asynchronous']),
             'base': rng.choice([2, 8, 10, 16]), 'compact': rng.random() < 0.3,
@@ -182,6 +193,78 @@ def _add_shared_enable_ports(d, rng):
     o <<= m[gen_designs.fit(rng, rng.choice(pool), 2)]
     d.outputs.append(o)
     d.mems.append(m)
+
+
+def _rom_data(rng, kind, aw, bw, partial_prob=0.5):
+    """-> (romdata, pad_with_zeros)"""
+    vals = [gen_designs.boundary_value(rng, bw) for _ in range(1 << aw)]
+    vals[-1] = vals[-1] or 1      # the last address holds a non-zero value: dropping it is visible
+    if kind == 'list':
+        return list(vals), False
+    if kind == 'dict':
+        if rng.random() < partial_prob:
+            keep = {a: v for a, v in enumerate(vals) if a == len(vals) - 1 or rng.random() < 0.6}
+            return keep, True
+        return {a: v for a, v in enumerate(vals)}, False
+    return (lambda vs: (lambda a: vs[a]))(vals), False
+
+
+def _add_same_name_memories(d, rng):
+    """distinct memory objects carrying EQUAL names: (i) a build_new_roms ROM with one read port per copy,
+    read 3-5 times (PyRTL clones it under the same name), (ii) two MemBlocks and two ROMs that were
+    simply given the same name (the API does not object)"""
+    pool = list(d.inputs) + list(d.regs)
+    aw = rng.randint(1, 3)
+    bw = rng.choice([2, 3, 4, 8])
+    data, pad = _rom_data(rng, rng.choice(['list', 'dict', 'func']), aw, bw)
+    crom = pyrtl.RomBlock(bw, aw, data, name='crom', max_read_ports=1, build_new_roms=True,
+                          asynchronous=True, pad_with_zeros=pad)
+    for k in range(rng.randint(3, 5)):
+        o = pyrtl.Output(bw, 'crom_q%d' % k)
+        o <<= crom[gen_designs.fit(rng, rng.choice(pool), aw)]
+        d.outputs.append(o)
+    for k in range(2):
+        bwm = rng.choice([1, 2, 4])
+        m = pyrtl.MemBlock(bitwidth=bwm, addrwidth=2, name='dupmem', max_read_ports=None,
+                           max_write_ports=None, asynchronous=True)
+        en = rng.choice(pool)
+        m[gen_designs.fit(rng, rng.choice(pool), 2)] <<= pyrtl.MemBlock.EnabledWrite(
+            gen_designs.fit(rng, rng.choice(pool), bwm), en[rng.randrange(len(en))])
+        o = pyrtl.Output(bwm, 'dupmem_q%d' % k)
+        o <<= m[gen_designs.fit(rng, rng.choice(pool), 2)]
+        d.outputs.append(o)
+        d.mems.append(m)
+    for k in range(2):
+        data, pad = _rom_data(rng, rng.choice(['list', 'dict', 'func']), 2, 4)
+        r = pyrtl.RomBlock(4, 2, data, name='duprom', asynchronous=True, pad_with_zeros=pad)
+        o = pyrtl.Output(4, 'duprom_q%d' % k)
+        o <<= r[gen_designs.fit(rng, rng.choice(pool), 2)]
+        d.outputs.append(o)
+        d.roms.append(r)
+
+
+def _add_swept_roms(d, rng):
+    """ROMs with list, dict and FUNCTION romdata, each addressed by its own Input so that the
+    stimulus can read every address; returns those Inputs"""
+    kinds = ['func'] + rng.sample(['list', 'dict', 'func'], rng.randint(1, 2))
+    rng.shuffle(kinds)
+    sweep = []
+    for k, kind in enumerate(kinds):
+        aw = rng.randint(1, 4)
+        bw = rng.choice([1, 3, 4, 8])
+        # (output_to_firrtl raises KeyError on a sparse dict ROM; keep most designs free of it so that the
+        # export runs to completion and every ROM, function-valued ones included, is materialised)
+        data, pad = _rom_data(rng, kind, aw, bw, partial_prob=0.2)
+        rom = pyrtl.RomBlock(bw, aw, data, name='rrom%d' % k, asynchronous=rng.random() < 0.5,
+                             pad_with_zeros=pad)
+        ra = pyrtl.Input(aw, 'ra%d' % k)
+        o = pyrtl.Output(bw, 'rq%d' % k)
+        o <<= rom[ra]
+        d.inputs.append(ra)
+        d.outputs.append(o)
+        d.roms.append(rom)
+        sweep.append(ra)
+    return sweep
 
 
 def fingerprint(block):
@@ -215,6 +298,18 @@ def simulate(block, stim, track='all', use_maps=True):
 
 def output_trace(block, stim, use_maps=True):
     sim, tracer = simulate(block, stim, track='all', use_maps=use_maps)
+    outs = sorted(w.name for w in block.wirevector_subset(pyrtl.Output))
+    return {nm: list(tracer.trace[nm]) for nm in outs}
+
+
+def fast_output_trace(block, stim):
+    regmap, memmap, inputs = stim
+    tracer = pyrtl.SimulationTrace(wires_to_track='all', block=block)
+    sim = pyrtl.FastSimulation(register_value_map=dict(regmap),
+                               memory_value_map={m: dict(c) for m, c in memmap.items()},
+                               tracer=tracer, block=block)
+    for step in inputs:
+        sim.step(dict(step))
     outs = sorted(w.name for w in block.wirevector_subset(pyrtl.Output))
     return {nm: list(tracer.trace[nm]) for nm in outs}
 
@@ -488,9 +583,14 @@ def readonly_calls(d, tracer_box):
         fs = pyrtl.FastSimulation(tracer=pyrtl.SimulationTrace(block=block), block=block)
         fs.step({w.name: 0 for w in block.wirevector_subset(pyrtl.Input)})
 
+    read_mems = {n.op_param[1] for n in block.logic_subset('m')}
+    roms = sorted((m for m in read_mems if isinstance(m, pyrtl.RomBlock)), key=lambda m: m.id)
+    # output_to_firrtl(rom_blocks=...) assumes EVERY read port belongs to a listed ROM (it raises
+    # AttributeError otherwise), so rom_blocks is passed only for ROM-only designs
+    rom_only = bool(roms) and len(roms) == len(read_mems) and not block.logic_subset('@')
+
     def c_firrtl():
-        roms = [m for m in d.roms]
-        pyrtl.output_to_firrtl(sio(), rom_blocks=roms or None, block=block)
+        pyrtl.output_to_firrtl(sio(), rom_blocks=roms if rom_only else None, block=block)
 
     return [('output_to_verilog', c_verilog, True), ('output_to_verilog(add_reset=False)', c_verilog_noreset, True),
             ('output_verilog_testbench', c_testbench, True),
@@ -504,7 +604,8 @@ def readonly_calls(d, tracer_box):
             ('fanout', c_fanout, True), ('distance', c_distance, True),
             ('net_connections', c_net_connections, True), ('sanity_check/iter/str', c_sanity_iter_str, True),
             ('Simulation', c_simulate, True), ('FastSimulation', c_fastsim, True),
-            ('output_to_firrtl', c_firrtl, False)]     # False: structure may change, behaviour may not
+            ('output_to_firrtl(rom_blocks=[...])' if rom_only else 'output_to_firrtl', c_firrtl, False)]
+    # False: structure may change, behaviour may not
 
 
 def run_readonly(spec, noise, textdir):
@@ -514,6 +615,9 @@ def run_readonly(spec, noise, textdir):
     sim, tracer = simulate(block, stim, track='all')
     box = [tracer]
     ref = output_trace(block, stim)
+    ref_fast = fast_output_trace(block, stim)
+    res['fast_equals_sim'] = (ref == ref_fast)
+    res['rom_kinds'] = sorted(type(m.data).__name__ for m in d.roms)
     fp = fingerprint(block)
     for cname, fn, structural in readonly_calls(d, box):
         entry = {'call': cname}
@@ -524,12 +628,19 @@ def run_readonly(spec, noise, textdir):
         try:
             fp2 = fingerprint(block)
             out2 = output_trace(block, stim)
+            out2_fast = fast_output_trace(block, stim)
         except Exception as e:
             entry['post_error'] = '%s: %s' % (type(e).__name__, str(e)[:300])
             res['calls'].append(entry)
             break
         entry['fp_same'] = (fp2 == fp)
         entry['beh_same'] = (out2 == ref)
+        entry['beh_same_fast'] = (out2_fast == ref_fast)
+        if out2_fast != ref_fast:
+            bad = sorted(k for k in set(ref_fast) | set(out2_fast) if ref_fast.get(k) != out2_fast.get(k))
+            entry['diff_fast'] = {'outputs': bad[:4], 'expected': {k: ref_fast.get(k) for k in bad[:2]},
+                                  'got': {k: out2_fast.get(k) for k in bad[:2]}}
+            ref_fast = out2_fast
         if not structural:
             entry['fp_same'] = None
         if out2 != ref:
